@@ -982,3 +982,113 @@ def rebind_class(cls, names=None, bases=(object,), extra=None, **glb):
     if extra:
         ns.update(extra)
     return type(cls.__name__ + "_sym", bases, ns)
+
+
+class SStr:
+    """string with a concrete length on each path and symbolic characters
+    (each item is a 1-char str or an SInt character code)"""
+
+    def __init__(self, items):
+        self.items = list(items)
+
+    @staticmethod
+    def lift(x):
+        if isinstance(x, SStr):
+            return x
+        if isinstance(x, str):
+            return SStr(list(x))
+        raise TypeError("cannot lift %r to SStr" % type(x))
+
+    @staticmethod
+    def digits(ints, width=None):
+        """decimal digits given as SInt/int digit values"""
+        return SStr([SInt(toint(d) + 48) if not isinstance(d, int)
+                     else chr(48 + d) for d in ints])
+
+    def __len__(self):
+        return len(self.items)
+
+    def __add__(self, o):
+        return SStr(self.items + SStr.lift(o).items)
+
+    def __radd__(self, o):
+        return SStr(SStr.lift(o).items + self.items)
+
+    def __getitem__(self, k):
+        if isinstance(k, slice):
+            return SStr(self.items[k])
+        return SStr([self.items[k]])
+
+    def _codes(self):
+        return [z3.IntVal(ord(c)) if isinstance(c, str) else toint(c)
+                for c in self.items]
+
+    def eq(self, o):
+        o = SStr.lift(o)
+        if len(o) != len(self):
+            return z3.BoolVal(False)
+        return z3.And([a == b for a, b in zip(self._codes(), o._codes())]
+                      or [True])
+
+    def lt(self, o):
+        """lexicographic < as z3 Bool"""
+        a, b = self._codes(), SStr.lift(o)._codes()
+        res = z3.BoolVal(len(a) < len(b))       # proper prefix
+        for x, y in reversed(list(zip(a, b))):
+            res = z3.If(x < y, z3.BoolVal(True),
+                        z3.If(x > y, z3.BoolVal(False), res))
+        return res
+
+    def __eq__(self, o):
+        if not isinstance(o, (SStr, str)):
+            return False
+        return SBool(self.eq(o))
+
+    def __ne__(self, o):
+        if not isinstance(o, (SStr, str)):
+            return True
+        return SBool(z3.Not(self.eq(o)))
+
+    def __lt__(self, o):
+        return SBool(self.lt(o))
+
+    def __gt__(self, o):
+        return SBool(SStr.lift(o).lt(self))
+
+    def __le__(self, o):
+        return SBool(z3.Not(SStr.lift(o).lt(self)))
+
+    def __ge__(self, o):
+        return SBool(z3.Not(self.lt(o)))
+
+    __hash__ = None
+
+    def join(self, parts):
+        out = []
+        for i, p in enumerate(parts):
+            if i:
+                out += self.items
+            out += SStr.lift(p).items
+        return SStr(out)
+
+    def count(self, sub):
+        raise NotModelled("SStr.count")
+
+    def __str__(self):
+        return "".join(c if isinstance(c, str) else "?" for c in self.items)
+
+    def __repr__(self):
+        return "SStr(%r)" % str(self)
+
+    def concrete(self, ev):
+        """the concrete text under a model evaluator"""
+        return "".join(c if isinstance(c, str) else chr(int(ev(c)))
+                       for c in self.items)
+
+
+def sjoin(sep, parts):
+    """"sep".join(parts) where parts may contain SStr"""
+    parts = list(parts)
+    if any(isinstance(p, SStr) for p in parts):
+        return SStr.lift(sep).join(parts)
+    return sep.join(parts)
